@@ -154,9 +154,6 @@ impl Scalar {
     }
     pub fn invert(&self) -> CtOption<Self> {
         if self.0 == 0 {
-            unsafe {
-                model::INV_ZERO += 1;
-            }
             return CtOption::new(Scalar(0), Choice::from(0));
         }
         #[cfg(kani)]
@@ -292,6 +289,7 @@ macro_rules! group_model {
             where
                 X: for<'a> ExpandMsg<'a>,
             {
+                #[cfg(feature = "counters")]
                 unsafe {
                     model::HASH_COUNT += 1;
                 }
